@@ -257,7 +257,7 @@ Lemma abs_step_grows a o : exists s' v', a_S (abs_step a o) = a_S a ++ s' /\ a_V
 Proof.
   destruct o as [st vs|]; cbn [abs_step].
   - exists st, vs. split; reflexivity.
-  - exists [], []. destruct (a_S a), (a_unc a); cbn [a_S a_V]; rewrite ?app_nil_r; split; reflexivity.
+  - exists [], []. rewrite !app_nil_r. destruct (a_S a) eqn:E, (a_unc a); cbn [a_S a_V]; rewrite ?E; split; reflexivity.
 Qed.
 
 Lemma fits_mono ops : forall a, fits (fold_left abs_step ops a) -> fits a.
@@ -281,22 +281,22 @@ Proof.
   - destruct Hl as (L1 & L2 & _). exists 0. unfold abs_state, cstate. cbn [a_S a_V a_C a_hwm a_unc a_last].
     apply write_state; assumption.
   - destruct (a_S a) as [|x l] eqn:ES.
-    + unfold abs_state. rewrite ES. apply commit_noop. left. reflexivity.
+    + unfold abs_state. rewrite ?ES. apply commit_noop. left. reflexivity.
     + destruct (a_unc a) eqn:EU.
-      * unfold abs_state. cbn [a_S a_V a_C a_hwm a_unc a_last]. rewrite ES, EU.
-        unfold fits in Hf. cbn [a_S a_V] in Hf. rewrite ES in *.
+      * unfold abs_state. cbn [a_S a_V a_C a_hwm a_unc a_last]. rewrite ?ES, ?EU.
+        unfold fits in Hf. cbn [a_S a_V] in Hf.
         assert (HV : a_V a <> []).
         { intros E. rewrite E in HL. Transparent zlen. unfold zlen in HL. cbn in HL. Opaque zlen. lia. }
         apply commit_state; try (apply Hf); try assumption; try discriminate.
         -- pose proof (hwm_ge a HA). lia.
         -- destruct (a_C a) as [[[e Sc] Vc]|]; cbn [prevof]; [|pose proof (hwm_ge a HA); lia].
-           destruct HC as (C1 & C2 & C3 & (S' & C4) & _). rewrite Hh, ES, C3.
-           rewrite C4 in HI. rewrite <- ES, C4. pose proof (prefix_last_le Sc S' HI C1). lia.
+           destruct HC as (C1 & C2 & C3 & (S' & C4) & _). rewrite Hh, C3, C4.
+           rewrite C4 in HI. pose proof (prefix_last_le Sc S' HI C1). lia.
         -- intros e Sc Vc EC. rewrite EC in HC. destruct HC as (C1 & C2 & C3 & (S' & C4) & _).
            subst e. assert (start <= last Sc start); [|lia].
-           rewrite Forall_forall in HF. apply HF. rewrite <- ES, C4. apply in_or_app. left.
+           rewrite Forall_forall in HF. apply HF. rewrite C4. apply in_or_app. left.
            destruct Sc as [|b l']; [contradiction|]. apply last_in.
-      * unfold abs_state. rewrite ES, EU. apply commit_noop. right. reflexivity.
+      * unfold abs_state. rewrite ?ES, ?EU. apply commit_noop. right. reflexivity.
 Qed.
 
 Lemma session_run : forall ops a, ainv a -> legal a ops -> fits (fold_left abs_step ops a) ->
@@ -309,6 +309,123 @@ Proof.
     destruct (session_step a o HA Hl1 (fits_mono r _ Hf)) as (e & Hs).
     destruct (IH (abs_step a o) (ainv_step a o HA Hl1) Hl2 Hf) as (outs & Hr & Ho).
     exists ((0, e) :: outs). cbn [map w_run]. rewrite Hs, Hr. split; [reflexivity|constructor; [reflexivity|exact Ho]].
+Qed.
+
+(* ---- the layout a session leaves behind ---- *)
+Lemma filter_all {A} (f : A -> bool) l : (forall x, In x l -> f x = true) -> filter f l = l.
+Proof.
+  induction l as [|x l IH]; intros H; [reflexivity|]. cbn [filter]. rewrite (H x) by (left; reflexivity).
+  f_equal. apply IH. intros y Hy. apply H. right. exact Hy.
+Qed.
+
+Lemma committed_layout Sc X : Sc <> [] -> inc Sc -> Forall (fun x => start <= x) Sc -> zlen X = zlen Sc ->
+  let e := last Sc start + 1 in
+  let q := Dom (TR start e) Sc in
+  let d := Dom (TR start e) X in
+  layout_ok [q] [d] /\ layout_assoc [q] [d] = combine Sc X.
+Proof.
+  intros Hne HI HF HX e q d.
+  assert (Hle : forall x, In x Sc -> start <= x < e).
+  { intros x Hx. rewrite Forall_forall in HF. pose proof (HF x Hx). pose proof (inc_last_max Sc start HI x Hx). unfold e. lia. }
+  assert (Hse : start < e).
+  { destruct Sc as [|b l]; [contradiction|]. pose proof (Hle _ (last_in b l start)). unfold e in *. lia. }
+  assert (Wq : iwf q) by (split; [exact HI|apply Forall_forall; exact Hle]).
+  assert (HP : ilay [q]).
+  { split; [split; [constructor; [exact Hse|constructor]|constructor; [constructor|constructor]]|constructor; [exact Wq|constructor]]. }
+  assert (ST : stamps_in (TR start e) (stamps_of [q]) = Sc).
+  { unfold stamps_of. cbn [map concat d_data q]. rewrite app_nil_r. unfold stamps_in. apply filter_all.
+    intros x Hx. specialize (Hle x Hx). unfold contains_stamp. cbn [t_s t_e].
+    apply andb_true_iff. split; [apply Z.leb_le|apply Z.ltb_lt]; lia. }
+  split.
+  - split; [apply ilay_inc_stamps, HP|]. split.
+    + split; [constructor; [exact Hse|constructor]|constructor; [constructor|constructor]].
+    + constructor; [|constructor]. split.
+      * cbn [d_tr d t_s t_e]. apply (dist_ok_one_domain [q] 0 q start e HP eq_refl); cbn [d_tr q t_s t_e]; lia.
+      * cbn [d_tr d]. rewrite ST. unfold dlen. cbn [d_data d]. exact HX.
+  - unfold layout_assoc, dom_assoc. cbn [flat_map d_tr d d_data]. rewrite ST, app_nil_r. reflexivity.
+Qed.
+
+Lemma empty_layout : layout_ok [] [] /\ layout_assoc [] [] = [].
+Proof.
+  split; [|reflexivity]. split; [constructor|]. split; [split; constructor|constructor].
+Qed.
+
+Lemma w_run_app st l1 l2 :
+  w_run st (l1 ++ l2) =
+  let '(st1, o1) := w_run st l1 in let '(st2, o2) := w_run st1 l2 in (st2, o1 ++ o2).
+Proof.
+  revert st. induction l1 as [|o l1 IH]; intros st.
+  - cbn [app w_run]. destruct (w_run st l2); reflexivity.
+  - cbn [app w_run]. destruct (w_step st o) as [st1 x]. rewrite IH.
+    destruct (w_run st1 l1) as [st2 o1]. destruct (w_run st2 l2) as [st3 o2]. reflexivity.
+Qed.
+
+(* what the session made visible *)
+Definition visible (ops : list sop) : list Z * list Z :=
+  match a_C (abs_run ops) with Some (_, Sc, Vc) => (Sc, Vc) | None => ([], []) end.
+
+Definition session_history (ops : list sop) : list wop :=
+  WOpen [1; 2] start false :: map sop_wop ops ++ [WClose].
+
+Lemma ainv0 : ainv abs0.
+Proof. unfold ainv, abs0. cbn. repeat split; constructor. Qed.
+
+Lemma final_db ops : legal abs0 ops -> fits (abs_run ops) ->
+  let r := w_run (init_state cap [(1, 0, 0); (2, 1, kind)]) (session_history ops) in
+  Forall (fun o => fst o = 0) (snd r) /\
+  exists t1 t2, s_db (fst r) = [Chan 1 0 0 (doms1 (a_C (abs_run ops))) t1; Chan 2 1 kind (doms2 (a_C (abs_run ops))) t2].
+Proof.
+  intros Hl Hf.
+  destruct (session_run ops abs0 ainv0 Hl Hf) as (outs & Hr & Ho).
+  assert (E : w_run (init_state cap [(1, 0, 0); (2, 1, kind)]) (session_history ops) =
+              (close_writer (abs_state (abs_run ops)), (0, 0) :: outs ++ [(0, 0)])).
+  { unfold session_history.
+    change (w_run (init_state cap [(1, 0, 0); (2, 1, kind)]) (WOpen [1; 2] start false :: map sop_wop ops ++ [WClose]))
+      with (let '(st1, x) := (let '(st', e) := op_open (init_state cap [(1, 0, 0); (2, 1, kind)]) [1; 2] start false in (st', (e, 0))) in
+            let '(st2, xs) := w_run st1 (map sop_wop ops ++ [WClose]) in (st2, x :: xs)).
+    rewrite open_state.
+    change (sstate [] [] [] [] 0 start false start) with (abs_state abs0).
+    rewrite w_run_app, Hr. fold (abs_run ops). reflexivity. }
+  cbv zeta. rewrite E. cbn [fst snd]. split.
+  - constructor; [reflexivity|]. apply Forall_app. split; [exact Ho|]. constructor; [reflexivity|constructor].
+  - eexists _, _. reflexivity.
+Qed.
+
+(* The refinement for one session: every step of the history succeeds, and afterwards every
+   read of the index channel and of the data channel returns exactly the visible samples whose
+   index stamps lie in the range. *)
+Theorem single_session_exact ops : legal abs0 ops -> fits (abs_run ops) ->
+  let r := w_run (init_state cap [(1, 0, 0); (2, 1, kind)]) (session_history ops) in
+  let '(Sc, Vc) := visible ops in
+  Forall (fun o => fst o = 0) (snd r) /\
+  forall t, valid_bounds t -> 0 <= t_s t ->
+    frame_data (read_chan (s_db (fst r)) 1 t) = read_spec (combine Sc Sc) t /\
+    frame_data (read_chan (s_db (fst r)) 2 t) = read_spec (combine Sc Vc) t.
+Proof.
+  intros Hl Hf. cbv zeta. destruct (final_db ops Hl Hf) as (Hcodes & t1 & t2 & Hdb).
+  assert (HA : ainv (abs_run ops)).
+  { unfold abs_run. clear Hf Hcodes Hdb. revert Hl. generalize ainv0. generalize abs0.
+    induction ops as [|o r IH]; intros a HA Hl; [exact HA|]. cbn [fold_left legal] in *.
+    destruct Hl as [H1 H2]. apply IH; [apply ainv_step; assumption|exact H2]. }
+  unfold visible. destruct HA as (HL & HI & HF & Hh & HC).
+  destruct (a_C (abs_run ops)) as [[[e Sc] Vc]|] eqn:EC.
+  - destruct HC as (C1 & C2 & C3 & (S' & C4) & (V' & C5)).
+    assert (ISc : inc Sc) by (rewrite C4 in HI; apply (inc_app_l Sc S' HI)).
+    assert (FSc : Forall (fun x => start <= x) Sc) by (rewrite C4 in HF; apply Forall_app in HF; apply HF).
+    destruct (committed_layout Sc Sc C1 ISc FSc eq_refl) as (L1 & A1).
+    destruct (committed_layout Sc Vc C1 ISc FSc (eq_sym C2)) as (L2 & A2).
+    cbv zeta in L1, A1, L2, A2. rewrite <- C3 in L1, A1, L2, A2.
+    split; [exact Hcodes|]. intros t Ht H0. rewrite Hdb. split.
+    + rewrite <- A1. unfold read_chan, chan_layout. cbn -[read_loop u_seek_first].
+      apply (read_one_exact _ _ _ L1 t Ht H0).
+    + rewrite <- A2. unfold read_chan, chan_layout. cbn -[read_loop u_seek_first].
+      apply (read_one_exact _ _ _ L2 t Ht H0).
+  - destruct empty_layout as (L0 & A0).
+    split; [exact Hcodes|]. intros t Ht H0. rewrite Hdb. cbn [combine]. split.
+    + unfold read_chan, chan_layout. cbn -[read_loop u_seek_first].
+      rewrite <- A0 at 1. apply (read_one_exact _ _ _ L0 t Ht H0).
+    + unfold read_chan, chan_layout. cbn -[read_loop u_seek_first].
+      rewrite <- A0 at 1. apply (read_one_exact _ _ _ L0 t Ht H0).
 Qed.
 
 Opaque last app zlen.
